@@ -109,6 +109,10 @@ type Sim struct {
 	pctChange   map[int]bool
 	lastTask    int
 	LockOrder   []string
+	// the foreign library's mutex (see Foreign)
+	foreignVC     VC
+	ForeignCalls  int
+	ForeignDirect int
 }
 
 // S is the simulation generated code talks to. nil ⇒ no simulation: Step/Access are no-ops and
@@ -352,6 +356,35 @@ func Access(obj any, path string, write bool, site string) {
 		l.reads[t.ID] = t.vc[t.ID]
 		l.rSites[t.ID] = site
 	}
+}
+
+// ForeignOwned is the pseudo-location that stands for all state a foreign library (testify's
+// mock.Mock and mock.Call) guards with a mutex of its own that the simulation cannot see.
+const ForeignOwned = "state owned and locked by testify (mock.Mock / mock.Call fields)"
+
+// Foreign models one call into that library as a critical section on its mutex: acquire, touch
+// the owned state, release. Calls into the library are atomic under the cooperative scheduler
+// (no scheduling point inside), which is what its own lock guarantees.
+func Foreign(site string) {
+	s := S
+	if s == nil || s.cur == nil {
+		return
+	}
+	t := s.cur
+	t.vc.join(&s.foreignVC)
+	Access(nil, ForeignOwned, true, site)
+	s.foreignVC = t.vc
+	t.vc[t.ID]++
+	s.ForeignCalls++
+}
+
+// ForeignAccess is generated code reading or writing a field of the foreign library's objects
+// directly, that is without the library's lock.
+func ForeignAccess(path string, write bool, site string) {
+	if S != nil && S.cur != nil {
+		S.ForeignDirect++
+	}
+	Access(nil, ForeignOwned, write, site+" (direct access to "+path+")")
 }
 
 // ---------------------------------------------------------------------------------------------
